@@ -3,6 +3,7 @@
 from __future__ import annotations
 
 import os
+import pathlib
 import shutil
 import tempfile
 
@@ -208,7 +209,7 @@ def files_case(rec, hub, rng, tier, d, tmpdir, i):
         path = os.path.join(tmpdir, f"dim_{i % 2}_{l}.{ext}")  # paths recur with new content: nothing may be remembered per path
         sheet = f"sheet {l}" if route == "xlsx-named-sheets" else None
         write_dimension_file(path, n, it, style, xlsx=xlsx, sheet=sheet, decoy_sheet=xlsx)
-        dim_files[n] = path
+        dim_files[n] = path if i % 5 else pathlib.Path(path)  # paths as text or as pathlib.Path objects
         dim_sheets[n] = sheet
     size = {l: len(it) for l, n, it, dt in d.dims}
     for p in d.parameters:
@@ -218,7 +219,7 @@ def files_case(rec, hub, rng, tier, d, tmpdir, i):
         path = os.path.join(tmpdir, f"par_{i % 2}_{p['name'].replace(' ', '_')}.{ext}")
         sheet = f"sheet {p['name']}" if route == "xlsx-named-sheets" else None
         write_parameter_file(path, d, p, vals, rng, xlsx=xlsx, sheet=sheet, decoy_sheet=xlsx)
-        par_files[p["name"]] = path
+        par_files[p["name"]] = path if i % 5 else pathlib.Path(path)
         par_sheets[p["name"]] = sheet
     sig = "|".join(f"{l}:{s[0]}{'+h' if s[1] else ''}" for l, s in sorted(styles.items()))
     for l, n, it, dt in d.dims:
